@@ -46,10 +46,12 @@ pub enum Mod {
     InputStyle(u8),
     /// the sessions run with a five-byte input type instead of `u8`
     Wide,
+    /// the builder's setters are called in the reverse order
+    SettersReversed,
 }
 
-pub const CORE_MENU: &[Mod] = &[Mod::Wide, Mod::Desync(1), Mod::NoChecksum, Mod::InputStyle(2), Mod::Undrained, Mod::InputStyle(3), Mod::Desync(3), Mod::UnevenTicks, Mod::InputStyle(1)];
-pub const NET_MENU: &[Mod] = &[Mod::Wide, Mod::Desync(1), Mod::NoChecksum, Mod::InputStyle(2), Mod::InputStyle(3), Mod::Desync(3), Mod::InputStyle(1)];
+pub const CORE_MENU: &[Mod] = &[Mod::Wide, Mod::SettersReversed, Mod::Desync(1), Mod::NoChecksum, Mod::InputStyle(2), Mod::Undrained, Mod::InputStyle(3), Mod::Desync(3), Mod::UnevenTicks, Mod::InputStyle(1)];
+pub const NET_MENU: &[Mod] = &[Mod::Wide, Mod::SettersReversed, Mod::Desync(1), Mod::NoChecksum, Mod::InputStyle(2), Mod::InputStyle(3), Mod::Desync(3), Mod::InputStyle(1)];
 
 fn apply_mod(s: &Scenario, m: Mod) -> Option<Scenario> {
     let mut x = s.clone();
@@ -78,6 +80,12 @@ fn apply_mod(s: &Scenario, m: Mod) -> Option<Scenario> {
                 return None;
             }
             x.peers.iter_mut().for_each(|p| p.input_style = st);
+        }
+        Mod::SettersReversed => {
+            if s.peers.iter().any(|p| p.builder_order != 0) {
+                return None;
+            }
+            x.peers.iter_mut().for_each(|p| p.builder_order = 1);
         }
         Mod::Wide => {
             if s.wide || !s.inject.is_empty() {
